@@ -58,6 +58,10 @@ pub enum Act {
     Fail(Kind),
     /// fail now and on every later call
     FailForever(Kind),
+    /// the caller's stream itself uses the library before it transfers everything asked for (a framing
+    /// reader that validates a serialized key, a writer that prefixes a serialized sequence number):
+    /// a nested round trip of an Fr, a G1Affine and an Fq12 on plain vectors, which must behave as usual
+    Reenter,
 }
 impl Act {
     pub fn to_json(&self) -> J {
@@ -68,6 +72,7 @@ impl Act {
             Act::Eintr => J::s("eintr"),
             Act::Fail(k) => J::s(&format!("fail:{}", k.name())),
             Act::FailForever(k) => J::s(&format!("failforever:{}", k.name())),
+            Act::Reenter => J::s("reenter"),
         }
     }
     pub fn from_json(j: &J) -> Result<Act, String> {
@@ -78,6 +83,8 @@ impl Act {
             Ok(Act::Zero)
         } else if s == "eintr" {
             Ok(Act::Eintr)
+        } else if s == "reenter" {
+            Ok(Act::Reenter)
         } else if let Some(n) = s.strip_prefix("short:") {
             Ok(Act::Short(n.parse().map_err(|_| "short:n")?))
         } else if let Some(k) = s.strip_prefix("failforever:") {
@@ -96,7 +103,30 @@ impl Act {
             Act::Eintr => "eintr",
             Act::Fail(_) => "fail_once",
             Act::FailForever(_) => "fail_forever",
+            Act::Reenter => "reenter",
         }
+    }
+}
+
+/// the nested library use of `Act::Reenter`; returns a description if anything but the usual happens
+/// (a panic propagates into the outer library call, whose caller reports it)
+pub fn nested_roundtrip() -> Option<String> {
+    use pairing_plus::bls12_381::{Fq12, Fr, G1Affine};
+    use pairing_plus::serdes::SerDes;
+    use pairing_plus::CurveAffine;
+    use ff_zeroize::Field;
+    let mut v = vec![];
+    let (a, b, c) = (Fr::one(), G1Affine::one(), Fq12::one());
+    if a.serialize(&mut v, true).is_err() || b.serialize(&mut v, true).is_err() || c.serialize(&mut v, true).is_err() {
+        return Some("a nested serialize to a Vec failed".into());
+    }
+    if v.len() != 32 + 48 + 576 {
+        return Some(format!("nested serialize wrote {} bytes, not 656", v.len()));
+    }
+    let mut r = &v[..];
+    match (Fr::deserialize(&mut r, true), G1Affine::deserialize(&mut r, true), Fq12::deserialize(&mut r, true)) {
+        (Ok(x), Ok(y), Ok(z)) if x == a && y == b && z == c && r.is_empty() => None,
+        _ => Some("a nested round trip did not return the values written".into()),
     }
 }
 
@@ -132,11 +162,12 @@ pub struct SimWriter {
     pub op: OpStats,
     pub flushes: usize,
     pub contract_breach: Option<String>,
+    pub nested_fault: Option<String>,
 }
 
 impl SimWriter {
     pub fn new(script: Vec<Act>) -> SimWriter {
-        SimWriter { script, idx: 0, data: vec![], forever: None, op: OpStats::default(), flushes: 0, contract_breach: None }
+        SimWriter { script, idx: 0, data: vec![], forever: None, op: OpStats::default(), flushes: 0, contract_breach: None, nested_fault: None }
     }
 }
 
@@ -158,6 +189,16 @@ impl Write for SimWriter {
         self.idx += 1;
         match act {
             Act::Full => {
+                self.data.extend_from_slice(buf);
+                self.op.progress_calls += 1;
+                self.op.bytes += buf.len();
+                Ok(buf.len())
+            }
+            Act::Reenter => {
+                self.op.kinds.push("reenter");
+                if let Some(e) = nested_roundtrip() {
+                    self.nested_fault.get_or_insert(e);
+                }
                 self.data.extend_from_slice(buf);
                 self.op.progress_calls += 1;
                 self.op.bytes += buf.len();
@@ -214,11 +255,12 @@ pub struct SimReader<'a> {
     pub pos: usize,
     pub forever: Option<Kind>,
     pub op: OpStats,
+    pub nested_fault: Option<String>,
 }
 
 impl<'a> SimReader<'a> {
     pub fn new(data: &'a [u8], script: Vec<Act>) -> SimReader<'a> {
-        SimReader { script, idx: 0, data, pos: 0, forever: None, op: OpStats::default() }
+        SimReader { script, idx: 0, data, pos: 0, forever: None, op: OpStats::default(), nested_fault: None }
     }
 }
 
@@ -254,6 +296,14 @@ impl<'a> Read for SimReader<'a> {
         };
         match act {
             Act::Full | Act::Zero => {
+                let n = blen.min(remaining);
+                Ok(deliver(self, n))
+            }
+            Act::Reenter => {
+                self.op.kinds.push("reenter");
+                if let Some(e) = nested_roundtrip() {
+                    self.nested_fault.get_or_insert(e);
+                }
                 let n = blen.min(remaining);
                 Ok(deliver(self, n))
             }
@@ -643,6 +693,9 @@ pub fn execute(plan: &IoPlan, want_log: bool) -> RunResult {
                 }
             }
         }
+        if let Some(e) = w.nested_fault.take() {
+            done!(Some(mk("serialize/6 library-usable-from-inside-the-callers-writer", "a nested round trip on plain vectors behaves as usual".into(), e)));
+        }
         // progress (bounded liveness): every call either moves >= 1 byte or consumes a fault
         if st.calls > e.len() + st.nonprogress() + 1 {
             done!(Some(mk(
@@ -811,6 +864,9 @@ pub fn execute(plan: &IoPlan, want_log: bool) -> RunResult {
                 cnt.inc("deserialize_err");
                 cnt.inc(&format!("probe_rejected_{}", why));
             }
+        }
+        if let Some(e) = rd.nested_fault.take() {
+            done!(Some(mk("deserialize/8 library-usable-from-inside-the-callers-reader", "a nested round trip on plain vectors behaves as usual".into(), e)));
         }
         // progress / bounded liveness after faults stop
         let bound = need + st.eintrs + st.fails + st.eofs + 1;
